@@ -26,6 +26,10 @@ TQuiescent == /\ Has /\ Rec.e = "quiescent"
               /\ QuiescentOk
               /\ UNCHANGED vars /\ l' = l + 1
 \* end of a history: all calls returned; no callback may be left registered on a requested state
+\* A record {"e":"unmarked_dequeue"} is written by the harness when the hook inside request_stop (under the state's
+\* lock, right after a callback was taken off the list) finds the entry not yet marked as removed.  No action
+\* consumes it: StopStateImpl requires the mark before the lock is released (variant mark_after_unlock violates
+\* NoUseAfterDestroy), so a history that contains it is rejected.
 TReset == /\ Has /\ Rec.e = "reset"
           /\ \A a \in Actor : op[a].st = "idle"
           /\ NoPendingCallback
